@@ -93,6 +93,17 @@ func Range(it MessageIterator, f func(*Schema, *Channel, *Message) error) error 
 	}
 }
 
+// seekLexer moves the stream to offset and detaches the reader's lexer from whatever chunk an
+// earlier, unfinished sequential read left it in, so that the next record is lexed from there.
+func (r *Reader) seekLexer(offset int64) error {
+	if _, err := r.rs.Seek(offset, io.SeekStart); err != nil {
+		return err
+	}
+	r.l.inChunk = false
+	r.l.reader = r.l.basereader
+	return nil
+}
+
 func (r *Reader) unindexedIterator(opts *ReadOptions) *unindexedMessageIterator {
 	opts.Finalize()
 	topicMap := make(map[string]bool)
@@ -169,13 +180,19 @@ func (r *Reader) Messages(
 			if r.dataStart >= 0 {
 				startPos = r.dataStart
 			}
-			_, err = r.rs.Seek(startPos, io.SeekStart)
-			if err != nil {
+			if err = r.seekLexer(startPos); err != nil {
 				return nil, fmt.Errorf("failed to seek to start: %w", err)
 			}
 			return r.unindexedIterator(&options), nil
 		}
 		return r.indexedMessageIterator(&options), nil
+	}
+	// A sequential read of a seekable source starts where the data starts, like the fall-back
+	// above; a source that cannot seek is read from where it stands.
+	if r.rs != nil && r.dataStart >= 0 {
+		if err := r.seekLexer(r.dataStart); err != nil {
+			return nil, fmt.Errorf("failed to seek to start: %w", err)
+		}
 	}
 	return r.unindexedIterator(&options), nil
 }
@@ -230,7 +247,7 @@ func (r *Reader) GetAttachmentReader(offset uint64) (*AttachmentReader, error) {
 }
 
 func (r *Reader) GetMetadata(offset uint64) (*Metadata, error) {
-	_, err := r.rs.Seek(int64(offset), io.SeekStart)
+	err := r.seekLexer(int64(offset))
 	if err != nil {
 		return nil, err
 	}
